@@ -99,6 +99,7 @@ def main(chk: C.Check, build: C.Build) -> None:
     samples = []
     cfgs: dict[tuple, int] = {}
     nmarked = 0
+    pyexc: list[dict[str, Any]] = []
     for pi in range(nprog):
         prog = clf.canon(clf.gen_program(r, depth=3 if not thorough else r.choice([3, 4])))
         suppress = r.random() < 0.7
@@ -128,6 +129,8 @@ def main(chk: C.Check, build: C.Build) -> None:
             o = run_impl(src, loader_src, data, suppress, trim=trim, shorthand=shorthand)
             evaluations += 1
             dist["text" if o[0] == "T" else "error" if o[0] == "E" else "pyexc"] += 1
+            if o[0] == "P" and len(pyexc) < 5:
+                pyexc.append({"source": src, "loader": loader_src, "data": data, "exception": o[1]})
             # layout independence (direct oracle on the implementation)
             o2 = run_impl(src_plain, loader_src, data, suppress, trim=trim, shorthand=shorthand)
             if o2 != o:
@@ -187,6 +190,7 @@ def main(chk: C.Check, build: C.Build) -> None:
         "construct_frequency": dict(sorted(feats.items())),
         "configurations": {repr(k): v for k, v in sorted(cfgs.items())},
         "programs_with_explicit_markers": nmarked,
+        "python_exceptions_seen": pyexc,
         "exhaustive": False,
         "tier_proved": "Core interpreter (CLF) refines the reference semantics; value-semantics laws",
     })
